@@ -1,5 +1,6 @@
 import SudsModel.Lemmas.DepSort
 import SudsModel.Xsd.Qualify
+import SudsModel.Xsd.Consolidate
 /-!
 C07 — the dependencies-first ordering underneath `Schema.dereference` (`dependency_sort`), for every
 dependency tree of any size: cycles, self-loops and dangling edges included.
@@ -96,5 +97,71 @@ theorem qualify_unknown_prefix (ref : String) (ctx : Ctx) (tns : Option String) 
 /-- the premises are satisfiable: a prefix declared two levels up, and a default namespace -/
 example : resolvePrefix "zz" [([], none), ([("zz", "urn:x")], some "urn:d")] = some "urn:x" ∧
     defaultNs [([], none), ([("zz", "urn:x")], some "urn:d")] = some "urn:d" := by decide
+
+end Suds.Xsd
+
+namespace Suds.Xsd
+
+/-- **Consolidation does not change a local element's form**: a declaration moved under a node with
+another `elementFormDefault` still has the form its own node gave it. -/
+theorem consolidation_keeps_form (own target : Form) (e : LocalDecl) :
+    effectiveForm target (stampForm own target e) = effectiveForm own e := by
+  unfold stampForm effectiveForm
+  by_cases h : own = target
+  · simp [h]
+  · simp [h]
+
+/-- the declarations of the first node are untouched and keep their form as well -/
+theorem consolidation_keeps_first (a b : SchemaNode) (e : LocalDecl) (h : e ∈ a.locals) :
+    e ∈ (consolidate a b).locals ∧ (consolidate a b).formDefault = a.formDefault := by
+  simp [consolidate, h]
+
+theorem consolidation_moves_every_declaration (a b : SchemaNode) (e : LocalDecl) (h : e ∈ b.locals) :
+    ∃ e', e' ∈ (consolidate a b).locals ∧ e'.name = e.name ∧
+      effectiveForm (consolidate a b).formDefault e' = effectiveForm b.formDefault e := by
+  refine ⟨stampForm b.formDefault a.formDefault e, ?_, ?_, ?_⟩
+  · simp only [consolidate, List.mem_append, List.mem_map]
+    exact Or.inr ⟨e, h, rfl⟩
+  · unfold stampForm; split <;> rfl
+  · exact consolidation_keeps_form _ _ _
+
+/-- D17 (fixed): without the stamp a moved declaration takes the other node's default. -/
+theorem unstamped_form_witness :
+    effectiveForm .unqualified ⟨"m", none⟩ ≠ effectiveForm .qualified ⟨"m", none⟩ := by decide
+
+theorem tlookup_append_other (t : PrefixTable) (p q u : String) (h : q ≠ p) :
+    tlookup p (t ++ [(q, u)]) = tlookup p t := by
+  induction t with
+  | nil =>
+    have : (q == p) = false := by simpa using h
+    simp [tlookup, this]
+  | cons e rest ih =>
+    obtain ⟨q', u'⟩ := e
+    by_cases hq : q' == p <;> simp [tlookup, hq, ih]
+
+/-- **Consolidation never rebinds a prefix of the first node** (D37, fixed): whatever the second
+node binds, every prefix bound in the first keeps its namespace. -/
+theorem consolidation_keeps_prefixes (p u : String) : ∀ (b existing : PrefixTable),
+    tlookup p existing = some u → tlookup p (mergePrefixes existing b) = some u := by
+  intro b
+  induction b with
+  | nil => intro existing h; exact h
+  | cons e rest ih =>
+    intro existing h
+    obtain ⟨q, v⟩ := e
+    unfold mergePrefixes
+    cases hq : tlookup q existing with
+    | some w => exact ih existing h
+    | none =>
+      apply ih
+      have hne : q ≠ p := by
+        intro e; subst e; rw [h] at hq; cases hq
+      rw [tlookup_append_other existing p q v hne]
+      exact h
+
+example : (consolidate ⟨.unqualified, [("p", "urn:a")], [⟨"x", none⟩]⟩
+                       ⟨.qualified, [("p", "urn:b"), ("q", "urn:c")], [⟨"y", none⟩, ⟨"z", some .unqualified⟩]⟩) =
+    ⟨.unqualified, [("p", "urn:a"), ("q", "urn:c")],
+     [⟨"x", none⟩, ⟨"y", some .qualified⟩, ⟨"z", some .unqualified⟩]⟩ := by decide
 
 end Suds.Xsd
